@@ -44,6 +44,16 @@ pub fn universe(name: &str) -> Vec<Key> {
                 })
                 .collect()
         }
+        // all 64 keys below one depth-1 merkle page (six-bit prefix 101101, every six-bit suffix): the
+        // page is stored and its last layer holds 64 leaves
+        "F64" => (0..64u8)
+            .map(|i| {
+                let mut k = [0x3cu8; 32];
+                k[0] = 0b1011_0100 | (i >> 4);
+                k[1] = (i << 4) | 0x0c;
+                k
+            })
+            .collect(),
         // clusters A (indices 0..23: 20 present in seed `ab20`, 4 absent), B (24..47, likewise) and
         // two keys elsewhere (48, 49)
         "AB" => {
@@ -253,6 +263,7 @@ pub fn seed_keys(name: &str) -> Vec<Key> {
             .collect(),
         // two stored cluster pages under different root children: A = 20 keys sharing 12 bits,
         // B = the same keys with their first bit flipped
+        "full1" => universe("F64"),
         "ab20" => {
             let mut v: Vec<Key> = (0..20).map(|i| cluster_key(12, i)).collect();
             v.extend((0..20).map(|i| util::flip_bit(&cluster_key(12, i), 0)));
